@@ -140,7 +140,7 @@ claim("C14",
       "pr::Expr::write's use of needs_parenthesis and the non-binary arms' option handling are read off the text, not verified; chumsky's pratt() "
       "semantics assumed; regex / HashSet / Formatter / String operations are shims by contract.")
 
-prop("C05", ["select_shape", "star_exclude", "limit_select", "star_cols", "sstring_cols", "lineage_except", "sort_infer"],
+prop("C05", ["select_shape", "star_exclude", "limit_select", "star_cols", "sstring_cols", "lineage_except", "sort_infer", "select_cols"],
      select={"sort_infer": lambda n: n.split(".", 1)[1] in ("SC1", "SC2", "SC3", "carry_sort_columns.safety", "carry_sort_columns.loop_exit")},
      not_covered="the rest of translate_wildcards (bookkeeping of the current star and of the exclusion sets), split_off_back / anchor_split behind extract_atomic, agreement "
                  "with the resolver's frame for every program, run-time expansion of `*`")
@@ -153,7 +153,7 @@ claim("C05",
       "otherwise puts a SELECT of exactly the requested columns, in the requested order, on top (limit_select EA1-3); when a star follows, only the explicitly "
       "selected columns IMMEDIATELY before it that it includes are dropped from the projection - what stays is a prefix, in order (star_cols AB1-3, loop invariant); "
       "push_select expands `T.*` into every listed column of T, in order, after what was selected before (XA1, loop invariant). The obligation that such columns are excluded for EVERY dialect (TE1) fails for "
-      "dialects without such a clause: recorded finding (`_expr_0` appears in the result on SQLite). the relation declared for `from s\"SELECT ..\"`: an item gets a name only if it is a bare identifier or has an alias (sstring_cols PN1-3), the names are declared once each in the order of first occurrence (SC1) - that they are the FIRST columns fails: recorded finding SC2 (a referenced column moves to the front); `select !{..}` removes a known column only for the same full identifier or a star over its input (lineage_except LE1-2). NOT proved: wildcard / "
+      "dialects without such a clause: recorded finding (`_expr_0` appears in the result on SQLite). the relation declared for `from s\"SELECT ..\"`: an item gets a name only if it is a bare identifier or has an alias (sstring_cols PN1-3), the names are declared once each in the order of first occurrence (SC1) - that they are the FIRST columns fails: recorded finding SC2 (a referenced column moves to the front); `select !{..}` removes a known column only for the same full identifier or a star over its input (lineage_except LE1-2). the columns the back end takes a pipeline to output (determine_select_columns, recursive, whole): the list of its last Select, partition ++ computed columns of its last Aggregate, the instance columns of From, what came before ++ the instance columns for Join, and otherwise what the pipeline in front outputs (select_cols DS1). NOT proved: wildcard / "
       "exclude translation, arity and order of the final projection for every program.",
       "translate_cid, the computation of the inferred name, HashMap / HashSet / NameGenerator are shims by contract; the iteration of retain() and "
       "the search of the Select in the CTE pipeline are dropped by the slices.")
@@ -231,7 +231,7 @@ def _safety(name):
 
 
 _ALL_UNITS = ["take_range", "sort_take", "split_order", "window_frame", "dialect_select", "ident_quote", "ids_names", "toposort", "rq_tables",
-              "select_shape", "span_units", "sql_prec", "prql_prec", "literals", "set_ops", "desugar", "resolve_guards", "lex_strings", "limit_clause", "static_eval", "operator_tpl", "rel_names", "lower_cols", "vec_utils", "group_take", "flatten_sort", "star_exclude", "std_arity", "limit_select", "rq_shape", "star_cols", "func_env", "json_lits", "cte_define", "type_meet", "fmt_strings", "concat_ops", "sstring_query", "sstring_cols", "lineage_except", "sort_infer", "setop_pairs", "setops_reach", "tuple_unpack", "resolver_unwraps", "name_lookup", "frame_decls"]
+              "select_shape", "span_units", "sql_prec", "prql_prec", "literals", "set_ops", "desugar", "resolve_guards", "lex_strings", "limit_clause", "static_eval", "operator_tpl", "rel_names", "lower_cols", "vec_utils", "group_take", "flatten_sort", "star_exclude", "std_arity", "limit_select", "rq_shape", "star_cols", "func_env", "json_lits", "cte_define", "type_meet", "fmt_strings", "concat_ops", "sstring_query", "sstring_cols", "lineage_except", "sort_infer", "setop_pairs", "setops_reach", "tuple_unpack", "resolver_unwraps", "name_lookup", "frame_decls", "select_cols"]
 
 
 def _c12_split_order(n):
